@@ -14,7 +14,7 @@ Floats are their 64-bit patterns; "order on floats" is the IEEE total order on b
 `-0.0` below `+0.0`.
 -/
 namespace Snel.Props.C08
-open Snel.C08
+open Snel.C08 Snel.Gen.C08
 
 /-! ## 1. order-preserving encodings -/
 
@@ -230,6 +230,63 @@ theorem C08_zones_overlapping_sound_partial (zones : List (Nat × List (List Nat
     obtain ⟨h1, n, hn⟩ := h
     exact C08_overlap_le_sound_partial n ks hn bound incl h1
 
+/-- End to end for the SuRF path (encoding + trie + `zones_overlapping_*`), in terms of numbers:
+if a zone holds a numeric value `x`, all values of the zone are numeric, and the literal lies on
+the **same lane** as `x`, then `x <op> literal` (on the lane's key: the exact integer, or the
+IEEE order for the float lane) implies the zone is among the candidates. PARTIAL: one lane
+(`C08_encode_mixed_float_fails`, `C08_encode_cross_kind_fails` otherwise) and tree-level search. -/
+theorem C08_surf_numeric_sound_partial (zones : List (Nat × List SV)) (z : Nat) (vals : List SV)
+    (hz : (z, vals) ∈ zones) (hnum : ∀ v ∈ vals, v.wf ∧ ∃ l k, laneOf v = some (l, k))
+    (x : SV) (hx : x ∈ vals) (lit : SV) (hlit : lit.wf) (l : Lane) (kx ky : Int)
+    (lx : laneOf x = some (l, kx)) (ly : laneOf lit = some (l, ky)) (ge incl : Bool)
+    (hcmp : if ge then (if incl then ky ≤ kx else ky < kx) else (if incl then kx ≤ ky else kx < ky)) :
+    ∃ b, encodeValue lit = some b ∧
+      z ∈ zonesOverlapping (zones.map fun p => (p.1, build (p.2.filterMap encodeValue))) ge b incl := by
+  have hxw := (hnum x hx).1
+  obtain ⟨ex, ey, e1, e2, hlt, _⟩ := C08_encode_consistent_partial x lit hxw hlit l kx ky lx ly
+  obtain ⟨ey', ex', e2', e1', hlt', _⟩ := C08_encode_consistent_partial lit x hlit hxw l ky kx ly lx
+  rw [e1] at e1'; rw [e2] at e2'
+  simp only [Option.some.injEq] at e1' e2'
+  subst e1'; subst e2'
+  refine ⟨ey, e2, ?_⟩
+  have hmem : ex ∈ vals.filterMap encodeValue := List.mem_filterMap.2 ⟨x, hx, e1⟩
+  have := C08_zones_overlapping_sound_partial (zones.map fun p => (p.1, p.2.filterMap encodeValue)) z
+    (vals.filterMap encodeValue) (List.mem_map.2 ⟨(z, vals), hz, rfl⟩) ge ey incl ?_
+  · simpa [List.map_map, Function.comp_def] using this
+  · cases ge with
+    | true =>
+      simp only [if_true] at hcmp ⊢
+      refine ⟨ex, hmem, ?_⟩
+      cases incl with
+      | true =>
+        simp only [if_true] at hcmp ⊢
+        have : ¬ lexLt ex ey = true := fun h => by have := hlt.1 h; omega
+        simpa [lexLe] using this
+      | false =>
+        simp only [Bool.false_eq_true, if_false] at hcmp ⊢
+        exact hlt'.2 hcmp
+    | false =>
+      simp only [Bool.false_eq_true, if_false] at hcmp ⊢
+      refine ⟨⟨ex, hmem, ?_⟩, 8, ?_⟩
+      · cases incl with
+        | true =>
+          simp only [if_true] at hcmp ⊢
+          have : ¬ lexLt ey ex = true := fun h => by have := hlt'.1 h; omega
+          simpa [lexLe] using this
+        | false =>
+          simp only [Bool.false_eq_true, if_false] at hcmp ⊢
+          exact hlt.2 hcmp
+      · intro k hk
+        obtain ⟨v, hv, hvk⟩ := List.mem_filterMap.1 hk
+        obtain ⟨hw, l', k', hl'⟩ := hnum v hv
+        have := (laneOf_enc v hw l' k' hl').1
+        rw [this] at hvk
+        simp only [Option.some.injEq] at hvk
+        rw [← hvk]; exact encKey_length l' k'
+
+/-- Non-vacuity: an int column, zone 1 holds 7, probe `> 3` (as the integral float `3.0`). -/
+example : laneOf (.int64 7) = some (.I, 7) ∧ laneOf (.f64 0x4008000000000000) = some (.I, 3) := by decide
+
 /-! ## 3. enum bitmaps -/
 
 /-- `= variant`: every zone holding a row with that variant is reported, for all variant lists,
@@ -275,13 +332,19 @@ theorem C08_ebm_neq_fails :
 /-! ## 4. per-zone temporal index -/
 
 /-- `ZoneTemporalIndex` built with stride 1 (what `TemporalIndexBuilder` passes): whenever a
-timestamp of the zone satisfies the comparison, `may_match` says so — `=` through
-`contains_ts`, ranges through min/max, `!=`; also for wrapping `i64` differences. -/
-theorem C08_zti_sound (ts : List Int) (t : Int) (ht : t ∈ ts) (op : Op) (v : Int)
+timestamp of the zone satisfies the comparison, `may_match` says so — ranges through min/max,
+`!=`, and `=` through `contains_ts`.
+PARTIAL for `=` only: `hbs` is the contract of `slice::binary_search` (it finds every element of
+the key vector), which std guarantees for a *sorted* vector. The keys are sorted unless
+`t - min_ts` wraps, i.e. unless two instants of one zone are `2^63` or more apart — then the
+vector is not sorted and the search can miss: `C08_zti_span_overflow_fails`. (That the keys are
+sorted otherwise is tied by the `zti` stream, not proved.) -/
+theorem C08_zti_sound_partial (ts : List Int) (t : Int) (ht : t ∈ ts) (op : Op) (v : Int)
+    (hbs : op = .eq → BsFindsMembers (Zti.ofTimestamps ts 1).keys)
     (h : opHolds op t v) : (Zti.ofTimestamps ts 1).mayMatch op v = true := by
   obtain ⟨h1, h2⟩ := zti_bounds ts 1 t ht
   cases op <;> simp only [opHolds] at h <;> simp only [Zti.mayMatch]
-  · subst h; exact zti_contains ts t ht
+  · subst h; exact zti_contains ts t ht (hbs rfl)
   · by_cases c1 : (Zti.ofTimestamps ts 1).minTs > (Zti.ofTimestamps ts 1).maxTs
     · omega
     · simp only [c1, if_false]
@@ -291,6 +354,22 @@ theorem C08_zti_sound (ts : List Int) (t : Int) (ht : t ∈ ts) (op : Op) (v : I
         simpa using this
       · simp [c2]
   all_goals (simp; omega)
+
+/-- Non-vacuity of `hbs`: an ordinary zone. -/
+example : BsFindsMembers (Zti.ofTimestamps [1700000000, 1700000007, 1699999990, 1700000007] 1).keys := by
+  intro k hk
+  have : k = 0 ∨ k = 10 ∨ k = 17 := by
+    have e : (Zti.ofTimestamps [1700000000, 1700000007, 1699999990, 1700000007] 1).keys = [0, 10, 17] := by decide
+    rw [e] at hk; simpa using hk
+  rcases this with rfl | rfl | rfl <;> decide
+
+/-- Instants more than `2^63` apart in one zone (`-100`, `-1` and `i64::MAX`): the key of
+`i64::MAX` wraps to 0, the key vector `[0, 99, 0]` is not sorted and `= -1` is not found.
+(With overflow checks on, `from_timestamps` panics instead.) -/
+theorem C08_zti_span_overflow_fails :
+    (-1 : Int) ∈ [-100, -1, 9223372036854775807] ∧
+    (Zti.ofTimestamps [-100, -1, 9223372036854775807] 1).keys = [0, 99, 0] ∧
+    (Zti.ofTimestamps [-100, -1, 9223372036854775807] 1).mayMatch .eq (-1) = false := by decide
 
 /-- Same for `may_match_range`. -/
 theorem C08_zti_range_sound (ts : List Int) (t : Int) (ht : t ∈ ts) (lo hi : Int)
@@ -333,12 +412,12 @@ theorem C08_cal_sound_partial (regs : List Reg) (r : Reg) (hr : r ∈ regs) (t v
     intro hvt
     refine mem_dayUnion regs _ r hr _ (day_bucket_mem r.mn r.mx r.mx (by omega) (Nat.le_refl _)) ?_
     rw [bucketId_day_of_lt v hv, bucketId_day_of_lt r.mx hmx]
-    simp only [dayOf]; apply decide_eq_true; omega
+    simp only [dayOf, daySecs]; apply decide_eq_true; omega
   have le_case : t ≤ v → r.zone ∈ zonesForLe regs v := by
     intro hvt
     refine mem_dayUnion regs _ r hr _ (day_bucket_mem r.mn r.mn r.mx (Nat.le_refl _) (by omega)) ?_
     rw [bucketId_day_of_lt v hv, bucketId_day_of_lt r.mn (by omega)]
-    simp only [dayOf]; apply decide_eq_true; omega
+    simp only [dayOf, daySecs]; apply decide_eq_true; omega
   rcases hop with rfl | rfl | rfl | rfl <;> simp only [opHolds] at h <;>
     simp only [zonesIntersecting, nn, if_false, Int.toNat_natCast]
   · exact ge_case (by omega)
@@ -360,7 +439,7 @@ theorem C08_cal_range_sound_partial (regs : List Reg) (r : Reg) (hr : r ∈ regs
   simp only [c4, if_false]
   refine mem_dayUnion regs _ r hr _ (day_bucket_mem r.mn t r.mx h1 h2) ?_
   rw [bucketId_day_of_lt lo (by omega), bucketId_day_of_lt hi hhi, bucketId_day_of_lt t (by omega)]
-  simp only [dayOf, Bool.and_eq_true]; exact ⟨decide_eq_true (by omega), decide_eq_true (by omega)⟩
+  simp only [dayOf, daySecs, Bool.and_eq_true]; exact ⟨decide_eq_true (by omega), decide_eq_true (by omega)⟩
 
 example : zonesIntersecting [⟨3, 86399, 86401⟩, ⟨5, 10, 20⟩] .eq 86400 = [3] ∧
     zonesIntersecting [⟨3, 86399, 86401⟩, ⟨5, 10, 20⟩] .gte 86400 = [3] ∧
@@ -438,5 +517,11 @@ theorem C08_xor_negzero_fails :
     xorZones (exactOps fun _ => false) String.length
       (xorBuild (exactOps fun _ => false) String.length [(0, [.f64 "-0"])]) (.int64 0) = [] :=
   ⟨by decide, by decide⟩
+
+/-- Same defect for integers beyond `2^53`: `i64::MIN` prints all its digits, the equal float
+prints `-9223372036854776000`. -/
+theorem C08_xor_big_int_text_fails :
+    valueToString (.int64 (-9223372036854775808)) ≠ valueToString (.f64 "-9223372036854776000") := by
+  decide
 
 end Snel.Props.C08
